@@ -56,8 +56,8 @@ type wcall struct {
 	Note  string     `json:"note,omitempty"`  // refinement used in signatures, e.g. clock id class
 
 	// facts for the direct assertions
-	FD      int64  `json:"fd"`                // value of the (first) fd parameter, -1 if none
-	Valid   bool   `json:"valid"`             // all pointers in range, argument shape is the well-formed one
+	FD      int64  `json:"fd"`                 // value of the (first) fd parameter, -1 if none
+	Valid   bool   `json:"valid"`              // all pointers in range, argument shape is the well-formed one
 	IOTotal uint32 `json:"io_total,omitempty"` // sum of iovec lengths
 }
 
